@@ -137,9 +137,12 @@ def run():
                 if _judged(op, x[0], y[0]) and (_boundary(x) or _boundary(y)):
                     nontrivial.add((op, x[0], _u64(x[1]), y[0], _u64(y[1])))
     samples = []
-    for c in list(cases.values())[:400:57][:3]:
-        samples.append({"a": c["ta"], "b": c["tb"], "types": [c["a"][0], c["b"][0]],
-                        "events": ["(%s %s %s) => %s" % (op, c["sa"], c["sb"], c["r"][0][k]) for k, op in enumerate(OPS)]})
+    for want in (("int", "int"), ("int", "flt"), ("uint", "uint")):
+        for c in cases.values():
+            if (c["a"][0], c["b"][0]) == want and _boundary(c["a"]) and c["id"].startswith("g"):
+                samples.append({"id": c["id"], "a": c["ta"], "b": c["tb"], "types": list(want),
+                                "events": ["(%s %s %s) => %s" % (op, c["sa"], c["sb"], c["r"][0][k]) for k, op in enumerate(OPS)]})
+                break
     out.samples = samples
     cov = {
         "evaluations": events,
